@@ -144,6 +144,11 @@ def b_rules(p: Project, rep: Report):
         ok = bool(vals_) and all(v in ("{k.lower(): v for k, v in headerattrs.items()}", "{k.lower(): v for (k, v) in headerattrs.items()}", "headermatch.groupdict()") or ("lower()" in v and ": v for" in v.replace("(k, v)", "k, v") and "int(" not in v) for v in vals_)
         # follow one more level: headerattrs = headermatch.groupdict()
         rep.check("B-R5", "parse:passes-captures-unmodified", ok, f"the constructor receives {vals_}: captured header strings are converted or altered before validation (e.g. int('0') is falsy and would be replaced by the default)" if not ok else "", hloc(p, c))
+    from .dataflow import writes_in
+
+    starnames = {text(k.value) for n in ctor for c in n.calls() for k in c.keywords if k.arg is None and isinstance(k.value, ast.Name)}
+    edits = [w for w in writes_in(pfn) if isinstance(w.target, (ast.Subscript, ast.Attribute, ast.Name)) and any(text(w.target).startswith(nm) for nm in starnames)]
+    rep.check("B-R5", "parse:captures-not-edited-in-place", not edits, f"the captured header fields are modified before validation ({[text(w.stmt)[:60] for w in edits]}): e.g. int('000') == 0 is falsy, so the constructor's `or default` replaces an invalid OFXHEADER by the valid default" if edits else "", hloc(p, edits[0].stmt if edits else pfn))
     guards = [n for n in cfg.nodes if n.kind == "test" and any(isinstance(s, ast.Raise) and s.exc is not None and "OFXHeaderError" in text(s.exc) for s in n.stmt.body) and text(norm(n.stmt.test)) in ("not headermatch", "headermatch is None")]
     ok = bool(guards) and all(cfg.dominated_by(n.id, [g.id for g in guards]) for n in ctor)
     rep.check("B-R5", "parse:no-match-raises-OFXHeaderError", ok, "a header text that does not match the regex does not raise OFXHeaderError" if not ok else "", hloc(p, pfn))
